@@ -107,6 +107,69 @@ example : toString 0x430C6BF526340000 = [49,48,48,48,48,48,48,48,48,48,48,48,48,
 example : toString 0x3E8421F5F40D8376 = [49, 46, 53, 101, 45, 48, 55] := by decide +kernel
 example : FracDigits 0x3F1A36E2EB1C432D := by decide +kernel
 
+/-! ### `is_integer`: where the EPSILON window differs from "is an integer" -/
+
+
+/-- Which finite doubles pass `is_integer`: true integers; `±(1 − 2^-53) = ±0.9999999999999999`
+    (the only spurious one of ordinary size); and magnitudes below `2^-52` (decimal exponent ≤ −16,
+    always rendered in exponent notation, where `is_integer` is not consulted). -/
+theorem isInteger_cases (bits : Nat) (hf : isFinite bits = true) (h : isInteger bits = true) :
+    (decompose bits).2.2 ≥ 0 ∨
+    (decompose bits).2.1 % 2 ^ (-(decompose bits).2.2).toNat = 0 ∨
+    (expField bits = 1022 ∧ fracField bits = 2 ^ 52 - 1) ∨
+    (decompose bits).2.1 * 2 ^ 52 < 2 ^ (-(decompose bits).2.2).toNat := by
+  have hfr := fracField_lt bits
+  unfold isInteger at h
+  simp only [hf, Bool.not_true, Bool.false_eq_true, if_false] at h
+  have hm : (decompose bits).2.1 < 2 ^ 53 := by
+    unfold decompose; simp only; split <;> simp <;> omega
+  have he : (decompose bits).2.2 = if expField bits = 0 then -1074 else (expField bits : Int) - 1075 := by
+    unfold decompose; simp only; split <;> simp_all
+  have hmv : (decompose bits).2.1 = if expField bits = 0 then fracField bits else fracField bits + 2 ^ 52 := by
+    unfold decompose; simp only; split <;> simp_all
+  generalize (decompose bits).2.1 = m at *
+  generalize (decompose bits).2.2 = e at *
+  by_cases hge : e ≥ 0
+  · exact Or.inl hge
+  · right
+    simp only [hge, if_false, decide_eq_true_eq] at h
+    generalize hk : (-e).toNat = k at *
+    have hden : 0 < 2 ^ k := Nat.pow_pos (by omega)
+    by_cases hr : m % 2 ^ k = 0
+    · exact Or.inl hr
+    · right
+      have hrlt := Nat.mod_lt m hden
+      have h52 : 2 ^ 52 < 2 ^ k := by
+        split at h <;> omega
+      have hk52 : 52 < k := (Nat.pow_lt_pow_iff_right (a := 2) (by omega)).1 h52
+      have h53 : 2 ^ 53 ≤ 2 ^ k := Nat.pow_le_pow_right (by omega) (by omega)
+      have hmod : m % 2 ^ k = m := Nat.mod_eq_of_lt (by omega)
+      rw [hmod] at h hr
+      by_cases hk53 : k = 53
+      · left
+        have hd53 : 2 ^ k = 9007199254740992 := by rw [hk53]
+        have hexp : ¬ expField bits = 0 := by
+          intro h0; rw [h0] at he; simp at he; omega
+        simp only [hexp, if_false] at he hmv
+        refine ⟨by omega, ?_⟩
+        rw [hd53] at h
+        by_cases hc : m ≤ 9007199254740992 - m
+        · simp only [hc, if_true] at h; omega
+        · simp only [hc, if_false] at h; omega
+      · right
+        have h54 : 2 ^ 54 ≤ 2 ^ k := Nat.pow_le_pow_right (by omega) (by omega)
+        by_cases hc : m ≤ 2 ^ k - m
+        · simp only [hc, if_true] at h; exact h
+        · exfalso
+          generalize 2 ^ k = D at *
+          simp only [Nat.reducePow] at hm h54
+          omega
+
+
+example : isInteger 0x3FEFFFFFFFFFFFFF = true := by decide +kernel      -- 0.9999999999999999
+example : isInteger 0x3FF0000000000001 = false := by decide +kernel     -- 1.0000000000000002
+example : isInteger 0x4341C37937E08000 = true := by decide +kernel      -- 1e16
+
 /-! ### repr: round trip -/
 
 /-- Round trip of the repr-style rendering, for every finite double on which digit generation
@@ -178,6 +241,94 @@ theorem hex_eq_py_fails : ¬ hex_eq_py_full := fun h => absurd (h 1) (by decide 
 example : toHex 0x3FF8000000000000 = pyHex 0x3FF8000000000000 := by decide +kernel
 -- 5e-324: "0x0.0000000000002p-1023" instead of "0x0.0000000000001p-1022"
 example : toHex 1 = [48,120,48,46,48,48,48,48,48,48,48,48,48,48,48,48,50,112,45,49,48,50,51] := by decide +kernel
+
+/-- Hex round trip for every finite non-zero double on which hexf's conversion behaves
+    (`HexFacts`): the scanner recovers `to_hex`'s mantissa digits and exponent exactly. -/
+theorem hex_roundtrip_partial (bits : Nat) (hf : isFinite bits = true) (hz : isZero bits = false)
+    (h : HexFacts bits) : fromHex (toHex bits) = some bits := by
+  have hfr := fracField_lt bits
+  have hexp : expField bits < 2048 := Nat.mod_lt _ (by omega)
+  have hfin : expField bits ≠ 2047 := by simpa [isFinite] using hf
+  unfold HexFacts at h
+  unfold toHex
+  simp only [hz, finite_not_inf hf, finite_not_nan hf, Bool.false_eq_true, if_false]
+  generalize hid : integerDecode bits = id at *
+  obtain ⟨mant, ex⟩ := id
+  simp only at h ⊢
+  have hmant : mant = if expField bits = 0 then fracField bits * 2 else fracField bits + 2 ^ 52 := by
+    have := congrArg Prod.fst hid; simpa [integerDecode] using this.symm
+  have hex : ex = (expField bits : Int) - 1075 := by
+    have := congrArg Prod.snd hid; simpa [integerDecode] using this.symm
+  have hm0 : mant ≠ 0 := by
+    rw [hmant]
+    split
+    · rename_i he
+      simp only [isZero, he, beq_self_eq_true, Bool.true_and, beq_eq_false_iff_ne] at hz
+      omega
+    · omega
+  have hlead : mant / 2 ^ 52 ≤ 1 := by rw [hmant]; split <;> omega
+  have hnat : hexNat (mant / 2 ^ 52) = [48 + mant / 2 ^ 52] := by
+    have : mant / 2 ^ 52 = 0 ∨ mant / 2 ^ 52 = 1 := by omega
+    rcases this with e | e <;> rw [e] <;> decide
+  have hf' : mant % 2 ^ 52 < 2 ^ 52 := Nat.mod_lt _ (by omega)
+  rw [hnat, hex13_eq _ hf', hexFixed_eq_map]
+  obtain ⟨sgn, ds, s1, s2, s3, s4, s5, s6⟩ := showSigned_value (ex + 52)
+  rw [s1]
+  have hbound : ofDigits ds ≤ isizeMax := by
+    rw [s5, hex]; simp only [isizeMax]; omega
+  have e16 : (16 : Nat) ^ 13 = 2 ^ 52 := by decide
+  have hval : mant / 2 ^ 52 * 16 ^ 13 + ofHex (hexVals 13 (mant % 2 ^ 52)) = mant := by
+    rw [ofHex_hexVals 13 _ (by rw [e16]; exact hf'), e16]
+    have := Nat.div_add_mod mant (2 ^ 52)
+    rw [Nat.mul_comm]; exact this
+  obtain ⟨acc', nf', nz', a1, a2, a3⟩ := parseHexf64_shape (isNeg bits) (mant / 2 ^ 52) hlead
+    (hexVals 13 (mant % 2 ^ 52)) (hexVals_lt16 13 _) (hexVals_length 13 _) sgn s2 ds s3 s4 hbound
+    (by rw [hval]; exact hm0)
+  have hshape : (if isNeg bits = true then [45] else []) ++ [48, 120] ++ [48 + mant / 2 ^ 52] ++ [46] ++
+      List.map hexDig (hexVals 13 (mant % 2 ^ 52)) ++ [112] ++ sgn :: showDigits ds =
+      (if isNeg bits = true then [45] else []) ++
+        48 :: 120 :: (48 + mant / 2 ^ 52) :: 46 :: (List.map hexDig (hexVals 13 (mant % 2 ^ 52)) ++ 112 :: sgn :: showDigits ds) := by
+    simp
+  rw [hshape]
+  unfold fromHex
+  rw [a3, s6]
+  rw [hval] at a1
+  have hpos : 0 < 16 ^ nz' := Nat.pow_pos (by omega)
+  have hk := h nz' (by omega) (by rw [← a1]; exact Nat.mul_mod_left _ _)
+  have hdiv : mant / 16 ^ nz' = acc' := by rw [← a1]; exact Nat.mul_div_cancel _ hpos
+  rw [hdiv] at hk
+  have hexeq : ex + 52 - 4 * (nf' : Int) = ex + 4 * (nz' : Int) := by omega
+  rw [hexeq, hk]
+
+
+example : HexFacts 0x3FF8000000000000 := by decide +kernel
+example : HexFacts 1 := by decide +kernel
+example : HexFacts 0x7FEFFFFFFFFFFFFF := by decide +kernel
+example : fromHex (toHex 0x000FFFFFFFFFFFFF) = some 0x000FFFFFFFFFFFFF := by decide +kernel
+
+
+/-- zeros and infinities round-trip through hex unconditionally -/
+theorem hex_roundtrip_zero_inf (bits : Nat) (hb : bits < 2 ^ 64)
+    (h : isZero bits = true ∨ isInf bits = true) : fromHex (toHex bits) = some bits := by
+  have hcases : bits = 0 ∨ bits = 2 ^ 63 ∨ bits = 0x7FF0000000000000 ∨ bits = 0xFFF0000000000000 := by
+    simp only [isZero, isInf, expField, fracField, Bool.and_eq_true, beq_iff_eq] at h
+    omega
+  rcases hcases with rfl | rfl | rfl | rfl <;> decide +kernel
+
+
+/-- `from_hex(to_hex(x)) = x` for every double that is not a NaN. -/
+theorem hex_roundtrip (bits : Nat) (hb : bits < 2 ^ 64) (hn : isNan bits = false) :
+    fromHex (toHex bits) = some bits := by
+  by_cases hf : isFinite bits = true
+  · by_cases hz : isZero bits = true
+    · exact hex_roundtrip_zero_inf bits hb (Or.inl hz)
+    · have hz' : isZero bits = false := by simpa using hz
+      exact hex_roundtrip_partial bits hf hz' (hexFacts_all bits hb hf hz')
+  · have : isInf bits = true := not_finite_nan_or_inf (by simpa using hf) hn
+    exact hex_roundtrip_zero_inf bits hb (Or.inr this)
+
+
+example : fromHex (toHex 0x3FB999999999999A) = some 0x3FB999999999999A := hex_roundtrip _ (by decide) (by decide)
 
 /-! ### exponent suffix -/
 
